@@ -18,7 +18,7 @@
 //   vnav both <world.json> <depth> <maxcalls> <seed> <nwalks> <len> <out.ndjson>   explore, then walk
 //   vnav replay <world.json> <script.json> <out.ndjson>           one given op sequence
 //   vnav dump <curved.json> <out.org.json>       build a curved world (worlds.py) through orangeinp, write .org.json
-//   vnav fixture <file.org.json> <seed> <nrays> <nwalks> <npoints> <nturns> <out.ndjson> [focus.json]
+//   vnav fixture <file.org.json> <seed> <nrays> <nwalks> <npoints> <nturns> <out.ndjson> [focus.json [plan.json]]
 //        straight rays, random protocol walks, safety probes and boundary-turn histories (a fresh
 //        direction on every boundary reached before cross_boundary) on a geometry file (raw doubles;
 //        tools/oracle_geo.py adds the environment facts before TLC sees the trace)
@@ -358,7 +358,8 @@ Geo build_world(json const& w)
 // through orangeinp and written out as an ordinary .org.json, so that the fixture pipeline (and the
 // independent oracle, which reads the JSON) treats them like any other geometry file.
 //   universe = {"name", "half":[a,b,c], "solids":[{"name","shape":"sphere","c":[..],"r":r} |
-//               {"name","shape":"cyl","c":[..],"r":r,"hh":h,"axis":0|1|2}],
+//               {"name","shape":"cyl","c":[..],"r":r,"hh":h,"axis":0|1|2} |
+//               {"name","shape":"cone","c","r0","r1","hh","R": 3x3 | null} | {"name","shape":"ell","c","radii","R"}],
 //               "daughters":[{"u": index, "R":[[..]x3], "t":[..]}], "bg": name}
 VariantTransform make_general_transform(json const& f)
 {
@@ -409,6 +410,28 @@ OrangeInput build_curved(json const& w)
             {
                 obj = std::make_shared<oi::SphereShape>(sname + ":s", oi::Sphere{sd.at("r").get<double>()});
                 obj = std::make_shared<oi::Transformed>(obj, Translation{c});
+            }
+            else if (sd.at("shape") == "cone" || sd.at("shape") == "ell")
+            {
+                if (sd.at("shape") == "cone")
+                    obj = std::make_shared<oi::ConeShape>(
+                        sname + ":k",
+                        oi::Cone{Real2{sd.at("r0").get<double>(), sd.at("r1").get<double>()}, sd.at("hh").get<double>()});
+                else
+                    obj = std::make_shared<oi::EllipsoidShape>(
+                        sname + ":e",
+                        oi::Ellipsoid{Real3{sd.at("radii").at(0).get<double>(), sd.at("radii").at(1).get<double>(),
+                                            sd.at("radii").at(2).get<double>()}});
+                if (sd.at("R").is_null())
+                    obj = std::make_shared<oi::Transformed>(obj, Translation{c});
+                else
+                {
+                    SquareMatrixReal3 m;
+                    for (int r2 = 0; r2 < 3; ++r2)
+                        for (int c2 = 0; c2 < 3; ++c2)
+                            m[r2][c2] = sd.at("R").at(r2).at(c2).get<double>();
+                    obj = std::make_shared<oi::Transformed>(obj, Transformation{m, c});
+                }
             }
             else
             {
@@ -1397,15 +1420,27 @@ struct FixtureDriver
         }
     }
 
-    void probe(int hid, int ndirs)
+    void probe(int hid, int ndirs, json const* planned = nullptr)
     {
-        // safety at an interior point, then rays in many directions from the same point
+        // safety at an interior point, then rays in many directions from the same point; a planned
+        // probe (tools/navfacts.py plan) comes with its point and with directions aimed at the nearest
+        // points of the surrounding surfaces, shot first
         FProto a;
         Real3 p = random_pos();
+        if (planned)
+            for (int k = 0; k < 3; ++k)
+                p[k] = planned->at("p").at(k).get<double>();
         if (!init(p, random_dir(), a, hid, "probe"))
             return;
         safety();
         int n = 0;
+        if (planned)
+            for (auto const& dj : planned->at("dirs"))
+            {
+                set_dir(a, make_unit_vector(Real3{dj.at(0).get<double>(), dj.at(1).get<double>(), dj.at(2).get<double>()}));
+                find(a, 0);
+                ++n;
+            }
         for (int i = -1; i <= 1 && n < ndirs; ++i)
             for (int j = -1; j <= 1 && n < ndirs; ++j)
                 for (int k = -1; k <= 1 && n < ndirs; ++k)
@@ -1425,7 +1460,7 @@ struct FixtureDriver
 };
 
 int run_fixture(std::string const& file, unsigned long seed, int nrays, int nwalks, int nprobes, int nturns,
-                verif::NdjsonWriter& out, json const& focus)
+                verif::NdjsonWriter& out, json const& focus, json const& plan)
 {
     Geo geo;
     geo.params = std::make_shared<OrangeParams>(file);
@@ -1459,6 +1494,8 @@ int run_fixture(std::string const& file, unsigned long seed, int nrays, int nwal
         fd.walk(hid++, 60);
     for (int i = 0; i < nprobes; ++i)
         fd.probe(hid++, 64);
+    for (auto const& pl : plan)
+        fd.probe(hid++, 64, &pl);
     for (int i = 0; i < nturns; ++i)
         fd.turn(hid++, 10);
     std::cerr << "fixture " << file << ": histories " << hid << " calls " << fd.calls << std::endl;
@@ -1535,13 +1572,14 @@ int main(int argc, char** argv)
             out(json{{"e", "Close"}});
             return rc;
         }
-        if (mode == "fixture" && (argc == 9 || argc == 10))
+        if (mode == "fixture" && argc >= 9 && argc <= 11)
         {
             verif::NdjsonWriter out(argv[8]);
             g_out = &out;
-            json focus = argc == 10 ? load_json(argv[9]) : json::array();
+            json focus = argc >= 10 ? load_json(argv[9]) : json::array();
+            json plan = argc >= 11 ? load_json(argv[10]) : json::array();
             int rc = run_fixture(argv[2], std::strtoul(argv[3], nullptr, 10), std::atoi(argv[4]), std::atoi(argv[5]),
-                                 std::atoi(argv[6]), std::atoi(argv[7]), out, focus);
+                                 std::atoi(argv[6]), std::atoi(argv[7]), out, focus, plan);
             out(json{{"e", "Close"}});
             return rc;
         }
